@@ -5,9 +5,9 @@ class C11(Prop):
     pid = "C11"
     check_mod = "C11"
     drivers = [dict(pkg="internal/conf", test="TestVerifC11")]
-    n_quick = 160
+    n_quick = 120
     n_thorough = 6000
-    shard = 40
+    shard = 8
     ready = True
     manifest = dict(
         text="Coq theorems over a Gallina transliteration of conf.deepClone on a reflect-like value universe "
